@@ -646,7 +646,7 @@ impl Store {
             for author in filter.authors() {
                 let tags = filter.tags()?;
                 for mut tag in tags.iter() {
-                    if let Some(tag0) = tag.next() {
+                    if let Some(tag0) = tag.next().filter(|name| !name.is_empty()) {
                         if let Some(tagvalue) = tag.next() {
                             #[cfg(feature = "verif")]
                             crate::verif::point("find.range");
@@ -703,7 +703,7 @@ impl Store {
             for kind in filter.kinds() {
                 let tags = filter.tags()?;
                 for mut tag in tags.iter() {
-                    if let Some(tag0) = tag.next() {
+                    if let Some(tag0) = tag.next().filter(|name| !name.is_empty()) {
                         if let Some(tagvalue) = tag.next() {
                             #[cfg(feature = "verif")]
                             crate::verif::point("find.range");
@@ -759,7 +759,7 @@ impl Store {
 
             let tags = filter.tags()?;
             for mut tag in tags.iter() {
-                if let Some(tag0) = tag.next() {
+                if let Some(tag0) = tag.next().filter(|name| !name.is_empty()) {
                     if let Some(tagvalue) = tag.next() {
                         #[cfg(feature = "verif")]
                         crate::verif::point("find.range");
